@@ -10,3 +10,18 @@ package bs_java
 //@ func NewBadSmellListener
 //@ establishes
 //@ modifies *
+
+// ---- C10: the number of top-level if / switch statements of a method body
+
+//@ spec TopStmt(b Node, j int) Node := Kid(ChildN(b, "blockStatement", j), 0)
+//@ spec IsCondStmt(s Node, kw string) bool := IsKind(s, "StatementContext") && NKids(s) >= 3 && IsKind(Kid(s, 1), "ParExpressionContext") && GetText(Kid(s, 0)) == kw
+//@ spec rec NCond(b Node, kw string, n int) int := n <= 0 ? 0 : NCond(b, kw, n - 1) + (IsCondStmt(TopStmt(b, n - 1), kw) ? 1 : 0)
+//@ spec BodyBlock(m Node) Node := Kid(Child(m, "methodBody"), 0)
+
+// every top-level statement of the body is looked at, wherever it stands: the counts are those of the whole body
+//@ func buildMethodBSInfo
+//@ requires context != nil
+//@ ensures IsKind(BodyBlock(context), "BlockContext") ==> result.IfSize == old(bsInfo.IfSize) + NCond(BodyBlock(context), "if", Count(BodyBlock(context), "blockStatement"))
+//@ ensures IsKind(BodyBlock(context), "BlockContext") ==> result.SwitchSize == old(bsInfo.SwitchSize) + NCond(BodyBlock(context), "switch", Count(BodyBlock(context), "blockStatement"))
+//@ ensures !IsKind(BodyBlock(context), "BlockContext") ==> result == old(bsInfo)
+//@ loop 1 invariant bsInfo.IfSize == old(bsInfo.IfSize) + NCond(BodyBlock(context), "if", #i) && bsInfo.SwitchSize == old(bsInfo.SwitchSize) + NCond(BodyBlock(context), "switch", #i)
